@@ -184,6 +184,11 @@ func (i *InvalidationIndex) cutKeys(labeledKeys map[string][]string, labels ...s
 	defer i.mu.Unlock()
 
 	for _, label := range labels {
+		// Label may be repeated, keys that were already cut must not be lost.
+		if _, found := res[label]; found {
+			continue
+		}
+
 		res[label] = labeledKeys[label]
 		delete(labeledKeys, label)
 	}
